@@ -17,6 +17,7 @@
 
 extern "C" void __asan_poison_memory_region(void const volatile*, size_t) __attribute__((weak));
 extern "C" void __asan_unpoison_memory_region(void const volatile*, size_t) __attribute__((weak));
+extern "C" void __tsan_init() __attribute__((weak));
 extern "C" int __cxa_guard_acquire(void*);
 extern "C" void __cxa_guard_release(void*);
 extern "C" void __cxa_guard_abort(void*);
@@ -91,6 +92,7 @@ void rt_set_env(uint64_t env) {
   uint64_t s = env * 0x9E3779B97F4A7C15ull + 12345;
   auto nx = [&]() { s ^= s << 13; s ^= s >> 7; s ^= s << 17; return s; };
   g_defer_cap = (int)(nx() % (DEFER_MAX + 1)); g_defer_n = 0; g_defer_pos = 0;
+  if (__tsan_init) g_defer_cap = 0;   // a block freed by another thread than the one that deferred it would look like a race to TSan
   int n = (int)(nx() % 33);
   g_spacer_n = 0;
   for (int i = 0; i < n; ++i) {
@@ -416,7 +418,7 @@ extern "C" void __wrap___cxa_guard_abort(void* g) { __cxa_guard_abort(g); sim::T
 
 // sanitizer defaults: classify hits by exit code; leaks are decided exactly by the allocator seam
 extern "C" __attribute__((used)) const char* __asan_default_options() {
-  return "exitcode=77:detect_leaks=0:allocator_may_return_null=1:detect_stack_use_after_return=0:handle_abort=1:abort_on_error=0";
+  return "exitcode=77:detect_leaks=0:allocator_may_return_null=1:detect_stack_use_after_return=0:handle_abort=1:abort_on_error=0:quarantine_size_mb=8";
 }
 extern "C" __attribute__((used)) const char* __ubsan_default_options() { return "print_stacktrace=1:halt_on_error=1:exitcode=78"; }
 extern "C" __attribute__((used)) const char* __tsan_default_options() { return "halt_on_error=1:exitcode=66:report_signal_unsafe=0:history_size=7"; }
